@@ -100,7 +100,9 @@ def event (tb : PyTable.Table) (d : DSt) (tok : String) : Option DSt :=
     some { st := register d.st cd, reqs := d.reqs.push ⟨.set, some cd, path, some json⟩ }
   | ["msg", topic, payload, cd, code] => do
     let topic ← if topic = "R" then some respTopic else decStr topic
-    let payload ← decStr payload
+    -- `X<hex>`: raw bytes that need not be UTF-8; the checker sends them only in messages that belong to no request
+    -- (foreign topic, unknown / no correlation data, no code), of which the dispatcher never reads the payload
+    let payload ← if payload.startsWith "X" then some ['\uFFFD'] else decStr payload
     let cd ← parseCd cd
     let code ← parseCode code
     some { d with st := PyTable.run tb respTopic d.st ⟨topic, payload, cd, code⟩ }
